@@ -33,15 +33,42 @@ def worker_dir():
     if not hasattr(_tls, 'dir'):
         with _lock:
             i = next(_ids)
-        _tls.dir = os.path.join(VERIF, '.work', 'scratch', 'w%d' % i)
+        # unique per process and thread: several checks may run their selftests at the same time
+        _tls.dir = os.path.join(VERIF, '.work', 'scratch', 'w%d-%d' % (os.getpid(), i))
+        _all_dirs.append(_tls.dir)
     return _tls.dir
+
+
+_all_dirs = []
+
+
+def _cleanup():
+    for d in _all_dirs:
+        shutil.rmtree(d, ignore_errors=True)
+
+
+import atexit
+atexit.register(_cleanup)
+
+
+def _wipe(d):
+    """keep the build cache of this worker (.fi-work: dependencies stay compiled), remove everything else"""
+    if not os.path.isdir(d):
+        return
+    for f in os.listdir(d):
+        if f == '.fi-work':
+            continue
+        p_ = os.path.join(d, f)
+        if os.path.isdir(p_):
+            shutil.rmtree(p_, ignore_errors=True)
+        else:
+            os.remove(p_)
 
 
 def scratch():
     d = worker_dir()
-    if os.path.isdir(d):
-        shutil.rmtree(d)
-    os.makedirs(d)
+    _wipe(d)
+    os.makedirs(d, exist_ok=True)
     repo = repo_dir()
     for f in sorted(os.listdir(repo)):
         if f in ('target', '.git'):
@@ -109,7 +136,7 @@ def one(job):
             out.append({'name': m['name'], 'prop': prop, 'ok': ok, 'rc': rc, 'keys': keys, 'benign': benign,
                         'want': None if benign else m['expect'][prop], 'text': text[-2500:]})
     finally:
-        shutil.rmtree(d, ignore_errors=True)
+        _wipe(d)    # the worker's build cache stays until the process ends (_cleanup)
     return out
 
 
